@@ -80,7 +80,7 @@ QUERIES = [((1, 1), ((0, 2), (0, 2))), ((0, 1), ((0, 2), (0, 2))), ((1, 1), ((0,
 
 def judge_history(seq):
     as_t = lambda rs: tuple(tuple(p.yx for p in r) for r in rs)  # noqa: E731
-    RT.cached_compute_rays_fancy.cache_clear()
+    getattr(RT.cached_compute_rays_fancy, 'cache_clear', lambda: None)()  # a memoiser without cache_clear is legitimate
     for qi in seq:
         origin, area = QUERIES[qi]
         got = RT.cached_compute_rays_fancy(Position(*origin), Area(*area))
@@ -97,18 +97,25 @@ def _work(job):
     items, which = job
     n = fans = 0
     fails = []
+    done = []
     for area, origin in items:
         k, m = judge_fan(area, origin, which)
         n += k
         fans += 1
+        done.append((area, origin))
         if m and len(fails) < 3:
-            fails.append({'kind': 'fan', 'area': area, 'origin': origin, 'which': which,
+            fails.append({'kind': 'fan', 'area': area, 'origin': origin, 'which': which, 'history': list(done),
                           'message': f'{which} fan, area {area}, origin {origin}: {m}', 'sig': {'fn': which},
                           'simplicity': (area[0][1] - area[0][0] + 1) * (area[1][1] - area[1][0] + 1)})
     return n, fans, fails
 
 
 def replay(case):
+    if case['kind'] == 'fan_history':
+        msg = None
+        for area, origin in case['history']:
+            msg = judge_fan(tuple(map(tuple, area)), tuple(origin), case['which'])[1]
+        return msg
     if case['kind'] == 'fan':
         return judge_fan(tuple(map(tuple, case['area'])), tuple(case['origin']), case['which'])[1]
     if case['kind'] == 'history':
@@ -126,14 +133,19 @@ def run(rep, tier, seed):
                 for y in range(area[0][0], area[0][1] + 1):
                     for x in range(area[1][0], area[1][1] + 1):
                         items.append((area, (y, x)))
-    items.sort(key=lambda it: -(it[0][0][1] - it[0][0][0] + 1) * (it[0][1][1] - it[0][1][0] + 1))
-    jobs = [(items[i::128], 'fancy') for i in range(128)]
+    # one job (= one fresh process) per (width, offset kind): all heights and ALL origins of an area are queried in the
+    # same process, in order, so that cache-key collisions between neighbouring origins / areas are exercised
+    groups = {}
+    for it in items:
+        area = it[0]
+        groups.setdefault((area[1][1] - area[1][0] + 1, area[0][0] == 0 and area[1][0] == 0), []).append(it)
+    jobs = [(g, 'fancy') for g in sorted(groups.values(), key=len, reverse=True)]
     if tier != 'quick':
         small = [it for it in items if (it[0][0][1] - it[0][0][0] + 1) <= 5 and (it[0][1][1] - it[0][1][0] + 1) <= 5]
         jobs += [(small[i::64], 'plain') for i in range(64)]
     rn = fans = 0
     fails = []
-    for n, f, fl in pmap(_work, jobs):
+    for n, f, fl in pmap(_work, jobs, fresh=True):
         rn += n
         fans += f
         fails.extend(fl)
@@ -151,7 +163,19 @@ def run(rep, tier, seed):
     for fl in pmap(hist_work, [seqs[i::32] for i in range(32)]):
         fails.extend(fl)
     fails.sort(key=lambda f: f.get('simplicity', 0))
-    dyn.report_fails(rep, fails, replay)
+    # a fan that fails during the exploration but not in isolation depends on the queries made before it in the process
+    # (a cache serving the wrong entry): its replay is the query history of its job
+    fixed = []
+    for f in fails:
+        hist = f.pop('history', None)
+        if f['kind'] == 'fan' and not replay(f) and hist:
+            g = {'kind': 'fan_history', 'which': f['which'], 'history': hist, 'message': f['message'] + ' [only after the earlier '
+                 f'queries of its job ({len(hist) - 1} fans): the answer depends on the order of earlier ray queries]',
+                 'sig': dict(f['sig'], history_dependent=True), 'simplicity': f.get('simplicity', 0)}
+            fixed.append(g)
+        else:
+            fixed.append(f)
+    dyn.report_fails(rep, fixed, replay)
     rep.bounds = {'area_sizes': f'1..{maxdim} x 1..{maxdim}', 'offsets': ['(0,0)', '(-h+1, -w//2)'], 'origins': 'every cell',
                   'cache_histories': f'all sequences up to length 4 over {len(QUERIES)} queries'}
     rep.part('fans', fans=fans, rays=rn)
